@@ -59,7 +59,7 @@ void scen_c06(mt_case * c) {
   mt_lib_start(c, &e, big ? 32768 : 0);
   MT_DIRTY(B.b); Z0(myth_barrier_init(&B.b, 0, B.N));
   myth_thread_t * th = calloc((size_t)B.N + 1, sizeof *th); int first = B.main_participates ? 1 : 0;
-  for (int i = first; i < B.N; i++) Z0(myth_create_ex(&th[i], 0, barrier_body, (void *)(intptr_t)i));
+  for (int i = first; i < B.N; i++) Z0(mt_create(&th[i], barrier_body, (void *)(intptr_t)i));
   if (B.main_participates) barrier_body((void *)0);
   for (int i = first; i < B.N; i++) { Z0(myth_join(th[i], 0)); mv_progress(); }
   mt_lib_finish();
@@ -141,10 +141,10 @@ void scen_c07(mt_case * c) {
   if (J.preset) J.jc.state = J.preset;
   myth_thread_t wt[8], dt[8];
   int order = (int)rd_below(r, 3);
-  if (order == 0) for (int k = 0; k < J.K; k++) Z0(myth_create_ex(&wt[k], 0, jc_waiter, (void *)(intptr_t)k));
-  for (int d = 0; d < J.D; d++) { Z0(myth_create_ex(&dt[d], 0, jc_decrementer, (void *)(intptr_t)d)); if (order == 1 && d < J.K) Z0(myth_create_ex(&wt[d], 0, jc_waiter, (void *)(intptr_t)d)); }
-  if (order == 1) for (int k = J.D; k < J.K; k++) Z0(myth_create_ex(&wt[k], 0, jc_waiter, (void *)(intptr_t)k));
-  if (order == 2) for (int k = 0; k < J.K; k++) Z0(myth_create_ex(&wt[k], 0, jc_waiter, (void *)(intptr_t)k));
+  if (order == 0) for (int k = 0; k < J.K; k++) Z0(mt_create(&wt[k], jc_waiter, (void *)(intptr_t)k));
+  for (int d = 0; d < J.D; d++) { Z0(mt_create(&dt[d], jc_decrementer, (void *)(intptr_t)d)); if (order == 1 && d < J.K) Z0(mt_create(&wt[d], jc_waiter, (void *)(intptr_t)d)); }
+  if (order == 1) for (int k = J.D; k < J.K; k++) Z0(mt_create(&wt[k], jc_waiter, (void *)(intptr_t)k));
+  if (order == 2) for (int k = 0; k < J.K; k++) Z0(mt_create(&wt[k], jc_waiter, (void *)(intptr_t)k));
   for (int d = 0; d < J.D; d++) { Z0(myth_join(dt[d], 0)); mv_progress(); }
   if (J.hold_back) {
     /* fewer than N decrements: nobody may have been released, however long we wait */
@@ -229,9 +229,9 @@ void scen_c08(mt_case * c) {
   mt_lib_start(c, &e, 0);
   MT_DIRTY(U.u); myth_uncond_init(&U.u);
   myth_thread_t tp = 0, tc = 0, tb[4];
-  for (int k = 0; k < nby; k++) Z0(myth_create_ex(&tb[k], 0, u_bystander, (void *)(intptr_t)byy));
-  if (consumer_first) { if (main_role != 2) Z0(myth_create_ex(&tc, 0, u_consumer, 0)); if (main_role != 1) Z0(myth_create_ex(&tp, 0, u_producer, 0)); }
-  else { if (main_role != 1) Z0(myth_create_ex(&tp, 0, u_producer, 0)); if (main_role != 2) Z0(myth_create_ex(&tc, 0, u_consumer, 0)); }
+  for (int k = 0; k < nby; k++) Z0(mt_create(&tb[k], u_bystander, (void *)(intptr_t)byy));
+  if (consumer_first) { if (main_role != 2) Z0(mt_create(&tc, u_consumer, 0)); if (main_role != 1) Z0(mt_create(&tp, u_producer, 0)); }
+  else { if (main_role != 1) Z0(mt_create(&tp, u_producer, 0)); if (main_role != 2) Z0(mt_create(&tc, u_consumer, 0)); }
   if (main_role == 1) u_producer(0); else if (main_role == 2) u_consumer(0);
   if (tp) { Z0(myth_join(tp, 0)); mv_progress(); }
   if (tc) { Z0(myth_join(tc, 0)); mv_progress(); }
@@ -348,12 +348,12 @@ void scen_c09(mt_case * c) {
   MT_DIRTY(F.fe); myth_felock_init(&F.fe, 0); F.box = -1;
   myth_thread_t th[12], rth[4]; int n = 0;
   int cf = (int)rd_below(r, 2), rf = (int)rd_below(r, 2);
-  if (rf) for (int k = 0; k < F.R; k++) Z0(myth_create_ex(&rth[k], 0, fe_reader, (void *)(intptr_t)k));
-  if (cf) for (int j = 0; j < F.C; j++) Z0(myth_create_ex(&th[n++], 0, fe_consumer, (void *)(intptr_t)j));
-  for (int i = 0; i < F.P; i++) Z0(myth_create_ex(&th[n++], 0, fe_producer, (void *)(intptr_t)i));
-  if (!cf) for (int j = 0; j < F.C; j++) Z0(myth_create_ex(&th[n++], 0, fe_consumer, (void *)(intptr_t)j));
-  if (F.insp) Z0(myth_create_ex(&th[n++], 0, fe_inspector, (void *)(intptr_t)F.insp));
-  if (!rf) for (int k = 0; k < F.R; k++) Z0(myth_create_ex(&rth[k], 0, fe_reader, (void *)(intptr_t)k));
+  if (rf) for (int k = 0; k < F.R; k++) Z0(mt_create(&rth[k], fe_reader, (void *)(intptr_t)k));
+  if (cf) for (int j = 0; j < F.C; j++) Z0(mt_create(&th[n++], fe_consumer, (void *)(intptr_t)j));
+  for (int i = 0; i < F.P; i++) Z0(mt_create(&th[n++], fe_producer, (void *)(intptr_t)i));
+  if (!cf) for (int j = 0; j < F.C; j++) Z0(mt_create(&th[n++], fe_consumer, (void *)(intptr_t)j));
+  if (F.insp) Z0(mt_create(&th[n++], fe_inspector, (void *)(intptr_t)F.insp));
+  if (!rf) for (int k = 0; k < F.R; k++) Z0(mt_create(&rth[k], fe_reader, (void *)(intptr_t)k));
   for (int i = 0; i < n; i++) { Z0(myth_join(th[i], 0)); mv_progress(); }
   if (F.R) {
     /* closing write: every item is consumed, the variable is empty; fill it for good */
@@ -391,7 +391,7 @@ static void once_init_common(int i) {
   case 0: break;
   case 1: do_yields(3); break;
   case 2: myth_mutex_lock(&O.m); do_yields(1); Z0(myth_mutex_unlock(&O.m)); break;
-  case 3: { myth_thread_t t; void * rv; Z0(myth_create_ex(&t, 0, once_child, (void *)7)); myth_join(t, &rv); if (rv != (void *)7) mt_fail("init routine: joined child returned %p", rv); break; }
+  case 3: { myth_thread_t t; void * rv; Z0(mt_create(&t, once_child, (void *)7)); myth_join(t, &rv); if (rv != (void *)7) mt_fail("init routine: joined child returned %p", rv); break; }
   }
   mv_progress();
   O.completed[i] = 1;     /* last statement of the routine */
@@ -433,7 +433,7 @@ void scen_c14(mt_case * c) {
   mv_set_point_observer(nosw_observer);
   MT_DIRTY(O.m); Z0(myth_mutex_init(&O.m, 0));
   myth_thread_t th[16];
-  for (int k = 0; k < O.K; k++) Z0(myth_create_ex(&th[k], 0, once_caller, (void *)(intptr_t)k));
+  for (int k = 0; k < O.K; k++) Z0(mt_create(&th[k], once_caller, (void *)(intptr_t)k));
   for (int k = 0; k < O.K; k++) { Z0(myth_join(th[k], 0)); mv_progress(); }
   mt_lib_finish();
   int used[3] = { 0 };
